@@ -160,7 +160,9 @@ class Rules:
             return
         msg = (e.d.get("msg") or "").strip()
         msg = re.sub(r"\s+", " ", msg)
-        key = "%s|%s" % (short_fn(e.fn), msg[:140] or e.d.get("what"))
+        own = e.d.get("owner") or e.fn
+        who = short_fn(e.fn) if own == e.fn else "%s>%s" % (short_fn(own), short_fn(e.fn))
+        key = "%s|%s" % (who, msg[:140] or e.d.get("what"))
         self.bump("R-PANIC", "sites", key)
         I.ob("R-PANIC", key, False, F.file_line(e.site or "?"),
              "LEA cannot refute the path to this panic: %s; path conditions: %s" % (msg[:100], "; ".join(seg.st.conds[-6:])[:400]))
@@ -421,11 +423,15 @@ def path_rules(fx, I, R, mode, ckpt, outs):
             if cur["ok"] and not ok:
                 cur.update(ok=False, site=site, detail=detail)
 
+    seeds = []
     for o in outs:
         if o.kind != "ret":
             continue
         st = o.st
         evs = st.events
+        ckpt_path_rules(ob, mode, o, None)
+        if st.ckpt == "some" and any(e.kind == "ckpt" and e.d.get("op") == "set" for e in evs):
+            seeds.append(st)
         # R-PROGRESS: every lex_token path consumes input or changes the mode stack
         # position labels are monotone in consumption; a rollback rewinds to the snapshot's label
         consumed = st.cursors["main"].pos > 0
@@ -442,4 +448,104 @@ def path_rules(fx, I, R, mode, ckpt, outs):
            "lex_token path in mode %s (handler %s, first arm %s) %s" % (
                mode, handler, arm, "makes progress" if (consumed or stack_changed) else
                "neither consumes input nor changes the mode stack: the main loop spins (debug: 9008, release: hang); conditions: %s" % "; ".join(st.conds[-6:])[:300]))
+    reg = explore_regions(I, seeds, ob)
+    obs[("_meta", "regions|" + mode)] = {"rule": "_meta", "key": "regions|" + mode, "ok": True, "site": "",
+                                          "detail": json.dumps(reg), "n": 1}
     return obs
+
+
+# ---------------------------------------------------------------------------
+# checkpoint discipline on whole paths + exploration of live-checkpoint regions
+
+OWNERS = ("MaybeMacroCallArgsOrLabel", "MaybeMacroCallArgAssign", "MacroCallArgOrValue")
+STRICT_OWNERS = ("MaybeMacroCallArgsOrLabel", "MaybeMacroCallArgAssign")
+
+
+def stack_names(st):
+    return [m.variant if isinstance(m, Enum) else "?" for m in st.stack]
+
+
+def ckpt_path_rules(ob, mode, o, region):
+    """CK2/CK3 and owner-entry on the end state of one lex_token path."""
+    st = o.st
+    names = stack_names(st)
+    tag = "region" if region else "entry"
+    if st.ckpt == "some":
+        has_owner = any(n in OWNERS for n in names)
+        ob("R-CKPT", "CK2|%s|live-checkpoint-has-owner" % mode, has_owner or (region and not st.below_pops and mode not in STRICT_OWNERS and st.base >= 0 and region == "inherited"),
+           "", ("lex_token path in mode %s ends with a live checkpoint and an owner mode on the stack %s" % (mode, names[-4:])) if has_owner else
+           ("lex_token path in mode %s ends with a live checkpoint but no owner mode (%s) on the known stack %s: the checkpoint "
+            "is never cleared (stale rollback target; next checkpoint() asserts); conditions: %s" % (mode, "/".join(STRICT_OWNERS), names[-5:], "; ".join(st.conds[-5:])[:300])))
+    if mode in STRICT_OWNERS:
+        # the owner's handler always pops its own mode: the checkpoint must be resolved on every path
+        popped_self = any(e.kind in ("pop", "stack_truncate") for e in st.events)
+        if popped_self:
+            ob("R-CKPT", "CK3|%s|owner-resolves" % mode, st.ckpt == "none", "",
+               "owner handler %s %s" % (mode, "clears or rolls back the checkpoint on this path" if st.ckpt == "none" else
+                                        "pops its mode but leaves the checkpoint live; conditions: %s" % "; ".join(st.conds[-5:])[:300]))
+    # the MakeCheckpoint marker is only ever placed directly above [MaybeMacroCallArgAssign, WsOrCStyleCommentOnly]
+    for i, n in enumerate(names):
+        if n == "MakeCheckpoint" and any(e.kind in ("push", "stack_insert") and isinstance(e.d.get("mode"), Enum) and e.d["mode"].variant == n for e in st.events):
+            ok = i >= 2 and names[i - 2:i] == ["MaybeMacroCallArgAssign", "WsOrCStyleCommentOnly"]
+            ob("R-CKPT", "MAKE-CHECKPOINT-CONTEXT|%s" % mode, ok, "",
+               "MakeCheckpoint placed above %s" % names[max(0, i - 2):i])
+    # every owner placed on the stack is entered with a live checkpoint
+    for i, n in enumerate(names):
+        if n in STRICT_OWNERS and any(e.kind in ("push", "stack_insert") and isinstance(e.d.get("mode"), Enum) and e.d["mode"].variant == n for e in st.events):
+            above = names[i + 1:]
+            ok = st.ckpt == "some" or "MakeCheckpoint" in above
+            ob("R-CKPT", "OWNER-ENTRY|%s|%s" % (mode, n), ok, "",
+               "owner mode %s is pushed with a live checkpoint (or a MakeCheckpoint marker above it)" % n if ok else
+               "owner mode %s is pushed without a live checkpoint: its fallback arm rolls back to nothing (9001)" % n)
+
+
+def region_sig(I, st):
+    main = st.cursors["main"]
+    strm = I.stream_of(st, "main")
+    la = tuple(repr(st.cs.get(("LA", strm, main.pos + i))) for i in (0, 1))
+    from . import lea_prims
+    return (repr(st.stack), st.ckpt, la, st.base, lea_prims.eof_known(st, strm, main.pos))
+
+
+def explore_regions(I, seeds, ob, max_depth=30, max_states=600):
+    """Continue lexing from every path end-state that leaves a checkpoint live, until it is resolved."""
+    from . import lea_prims
+    from .lea import LEXER
+    seen = set()
+    work = [(s, 1) for s in seeds]
+    n_states = 0
+    deepest = 0
+    while work:
+        st0, depth = work.pop()
+        sig = region_sig(I, st0)
+        if sig in seen:
+            continue
+        seen.add(sig)
+        n_states += 1
+        deepest = max(deepest, depth)
+        if n_states > max_states or depth > max_depth:
+            ob("R-CKPT", "REGION|budget", False, "", "live-checkpoint region exploration exceeded its budget (depth %d, %d states): fail-closed" % (depth, n_states))
+            break
+        if not st0.stack:
+            ob("R-CKPT", "REGION|unknown-top", False, "", "a live checkpoint survives below the known mode-stack suffix; conditions: %s" % "; ".join(st0.conds[-5:])[:300])
+            continue
+        s = st0.clone()
+        s.events = []
+        s.frames = []
+        main = s.cursors["main"]
+        strm = I.stream_of(s, "main")
+        k = lea_prims.eof_known(s, strm, main.pos)
+        if k is True:
+            continue   # end of input: finalize_lexing takes over
+        lea_prims.set_eof(s, strm, main.pos, False)
+        la0 = LA(strm, main.pos, 0)
+        top = s.stack[-1]
+        mode = top.variant if isinstance(top, Enum) else "?"
+        outs = I.run_fn("Lexer::lex_token", s, [LEXER, la0])
+        for o in outs:
+            if o.kind != "ret":
+                continue
+            ckpt_path_rules(ob, mode, o, "inherited")
+            if o.st.ckpt == "some":
+                work.append((o.st, depth + 1))
+    return {"states": n_states, "deepest": deepest}
